@@ -124,10 +124,15 @@ def check_events(ctx):
                ('edges do not start at 0' if not ok_lo else ('the last edge does not exceed the last possible event time: late events are in no part' if not ok_hi
                                                               else 'number of edges is not n_parts + 1')))
     # ---- R2: re-basing
-    writes = [e for e in uniq_events(it, {'column_write'}, inside) if e['frame'] is not None and e['frame'].ty == 'DataFrame' and e['aug']]
+    def _rebases(e):
+        # part[keys] -= offset, or the same spelled out: part[keys] = part[keys] - offset
+        v_ = e.get('value')
+        return bool(e['aug']) or (v_ is not None and v_.bin is not None and v_.bin[0] == '-')
+    writes = [e for e in uniq_events(it, {'column_write'}, inside) if e['frame'] is not None and e['frame'].ty == 'DataFrame' and _rebases(e)]
+    other_writes = [e for e in uniq_events(it, {'column_write'}, inside) if e['frame'] is not None and e['frame'].ty == 'DataFrame' and not _rebases(e)]
     if not writes:
         from .common import absent
-        ctx.ob('R2', fi, 're-basing', absent(it, fi.qualname), 'event times of the parts are not re-based to the start of the part')
+        ctx.ob('R2', fi, 're-basing', None if other_writes else absent(it, fi.qualname), 'event times of the parts are not re-based to the start of the part')
     for e in writes:
         fr, val = e['frame'], e['value']
         copied = fr.store == 'fresh' or fr.fresh
